@@ -33,8 +33,11 @@ import (
 // Direct oracle (independent of the model): an ideal record of all calls. (1) a positive answer
 // must have an earlier call with the same signature and a conflicting tag; (2) a call whose
 // signature was presented at most `interval` earlier with fewer than `capacity` distinct other
-// signatures in between must be answered by the tag rule; (3) a same-source retransmission
-// (all earlier tags equal to the present non-empty tag) is never reported.
+// signatures in between must be answered by the tag rule AGAINST THE OWNER — the first presentation
+// of the unbroken chain of in-bounds presentations (replay_no_miss_owner_tag, replay_owner_chain): a
+// foreign presenter is reported however often it retries, the owner's retransmissions never are;
+// (3) a same-source retransmission (all earlier tags equal to the present non-empty tag) is never
+// reported.
 //
 // Window arithmetic: the ±1 minute metadata timestamp rule (real Unmarshal) and the three key slots
 // (real saltFromTime) against the model's tsAccept / roundTo, plus the disjointness of the slot
@@ -76,6 +79,14 @@ type c06Rec struct {
 	before, after time.Duration
 }
 
+// c06Chain is what the ideal record knows about one signature: who presented it first (the owner)
+// and which other tags presented it since, as long as every presentation was inside the bounds.
+type c06Chain struct {
+	owner     string
+	known     bool
+	presented map[string]bool
+}
+
 func c06Sig(data []byte) uint64 {
 	h := fnv.New64a()
 	h.Write(data)
@@ -101,6 +112,7 @@ func c06RunCache(c *core.Ctx, k c06Case) bool {
 	defer c.Model.Ask("replay-drop %d", id)
 	exp := iv // model's expireTime, relative to b0
 	var hist []c06Rec
+	chains := map[uint64]*c06Chain{}
 	trace := []string{}
 	for i, op := range k.Ops {
 		if op.Clear {
@@ -109,6 +121,7 @@ func c06RunCache(c *core.Ctx, k c06Case) bool {
 				c.Disagree("C06/corr/replay-clear", "model: "+r, k)
 			}
 			hist = nil
+			chains = map[uint64]*c06Chain{}
 			trace = append(trace, "clear")
 			continue
 		}
@@ -222,8 +235,14 @@ func c06RunCache(c *core.Ctx, k c06Case) bool {
 			}
 			c.Violate(key, fmt.Sprintf("op %d: %s", i, what), k)
 		}
-		// no miss: latest earlier presentation inside the bounds
-		if n := len(sameSig); n > 0 {
+		// no miss: latest earlier presentation inside the bounds. The expected answer is the tag rule
+		// against the OWNER: the first presentation of the unbroken chain of in-bounds presentations
+		// (theorems replay_no_miss_owner_tag / replay_owner_chain). The owner is known to this ideal
+		// record when the chain started at the first presentation since the cache was created/cleared.
+		ch := chains[sig]
+		if len(sameSig) == 0 {
+			chains[sig] = &c06Chain{owner: tag, known: true, presented: map[string]bool{}}
+		} else {
 			last := -1
 			for j := len(hist) - 1; j >= 0; j-- {
 				if hist[j].sig == sig {
@@ -239,20 +258,47 @@ func c06RunCache(c *core.Ctx, k c06Case) bool {
 			if inTime && len(others) < k.Cap {
 				c.Hist("no_miss_bound", "inside")
 				want, determined := false, false
-				if allConflict {
-					want, determined = true, true
-				} else if !anyConflict {
-					want, determined = false, true
+				if ch.known {
+					want, determined = c06Conflict(ch.owner, tag), true
+					switch {
+					case tag == ch.owner:
+						c.Hist("owner_chain", "owner-presents-again")
+					case ch.presented[tag]:
+						c.Hist("owner_chain", "foreign-tag-retries/after="+f[6])
+					default:
+						c.Hist("owner_chain", "foreign-tag-first-attempt/after="+f[6])
+					}
+				} else {
+					c.Hist("owner_chain", "owner-unknown")
+					if allConflict {
+						want, determined = true, true
+					} else if !anyConflict {
+						want, determined = false, true
+					}
 				}
 				if determined && got != want {
-					key := "C06/cache/miss"
+					key := "C06/cache/miss/rotation=" + f[5]
 					if !want {
-						key = "C06/cache/tag-rule"
+						key = "C06/cache/tag-rule/rotation=" + f[5]
 					}
-					c.Violate(key+"/rotation="+f[5], fmt.Sprintf("op %d: signature presented %v earlier with %d distinct other signatures in between (capacity %d, interval %v): answer %v, want %v", i, after-hist[last].before, len(others), k.Cap, iv, got, want), k)
+					if ch.known && want && ch.presented[tag] {
+						// a foreign presenter retried and passed: its earlier attempt replaced the owner's tag
+						key = "C06/cache/miss/owner-tag-overwritten-after-rotation"
+					} else if ch.known && !want && len(ch.presented) > 0 {
+						key = "C06/cache/tag-rule/owner-reported-after-foreign-presentation"
+					}
+					owner := "unknown"
+					if ch.known {
+						owner = fmt.Sprintf("%q", ch.owner)
+					}
+					c.Violate(key, fmt.Sprintf("op %d: signature presented %v earlier with %d distinct other signatures in between (capacity %d, interval %v), owner tag %s, present tag %q: answer %v, want %v", i, after-hist[last].before, len(others), k.Cap, iv, owner, tag, got, want), k)
 				}
 			} else {
 				c.Hist("no_miss_bound", "outside")
+				ch.known = false // the entry may or may not have been dropped: the owner is undetermined from here on
+			}
+			if tag != ch.owner || !ch.known {
+				ch.presented[tag] = true
 			}
 		}
 		hist = append(hist, c06Rec{sig, tag, before, after})
@@ -424,6 +470,75 @@ func c06GenOps(c *core.Ctx, cap int, n int, timed bool) []c06Op {
 	return ops
 }
 
+// c06GenOwner: a fresh signature recorded by an owner, then an unbroken chain of further presentations
+// under the owner's tag, foreign tags (each retried several times) and EmptyTag, every link inside the
+// bounds (fewer than cap distinct others, short pauses) but with rotations by size (small capacities)
+// and by time (timed histories) between and inside the links.
+func c06GenOwner(c *core.Ctx, cap int, timed bool, serial int) []c06Op {
+	x := core.Hex([]byte{0xa0, byte(serial), byte(serial >> 8), byte(c.Rand.Intn(256))})
+	tags := []string{core.Hex([]byte("10.0.0.1:5000")), core.Hex([]byte("10.0.0.2:5000")), core.Hex([]byte("[::1]:7")), "-"}
+	owner := tags[c.Rand.Intn(len(tags))]
+	if c.Rand.Intn(4) != 0 {
+		owner = tags[c.Rand.Intn(3)] // mostly a tagged owner (the UDP use)
+	}
+	var ops []c06Op
+	other := 0
+	fill := func(n int, pause float64) {
+		for j := 0; j < n; j++ {
+			op := c06Op{Data: core.Hex([]byte{0xb0, byte(serial), byte(other), byte(other >> 8)}), Tag: tags[c.Rand.Intn(len(tags))]}
+			other++
+			if timed && j == 0 && pause > 0 {
+				op.At, op.Frac = "gap", pause
+			}
+			ops = append(ops, op)
+		}
+	}
+	if c.Rand.Intn(2) == 0 {
+		fill(c.Rand.Intn(2*cap+1), 0) // earlier traffic: the generations are not empty
+	}
+	first := c06Op{Data: x, Tag: owner}
+	if timed {
+		switch c.Rand.Intn(3) {
+		case 0:
+			first.At, first.Frac = "pre", 1 // just before the rotation deadline
+		case 1:
+			first.At, first.Frac = "post", 0
+		}
+	}
+	ops = append(ops, first)
+	rounds := 3 + c.Rand.Intn(6)
+	foreign := tags[c.Rand.Intn(len(tags))]
+	for r := 0; r < rounds; r++ {
+		n := 0
+		if cap > 1 {
+			n = c.Rand.Intn(cap) // < cap distinct others in the link
+		}
+		pause := 0.0
+		if timed {
+			pause = 0.15 + 0.5*float64(c.Rand.Intn(1000))/1000
+		}
+		fill(n, pause/2)
+		tag := foreign
+		switch c.Rand.Intn(6) {
+		case 0:
+			tag = owner
+		case 1:
+			foreign = tags[c.Rand.Intn(len(tags))]
+			tag = foreign
+		}
+		op := c06Op{Data: x, Tag: tag}
+		if timed {
+			op.At, op.Frac = "gap", pause/2
+		}
+		ops = append(ops, op)
+		for rep := c.Rand.Intn(3); rep > 0; rep-- { // immediate retries by the same presenter
+			ops = append(ops, c06Op{Data: x, Tag: tag})
+		}
+	}
+	ops = append(ops, c06Op{Data: x, Tag: owner}) // the owner retransmits at the end
+	return ops
+}
+
 func c06Fixed() []c06Case {
 	h := func(b ...byte) string { return core.Hex(b) }
 	e := "-"
@@ -489,6 +604,11 @@ func init() {
 					c.Sample(k)
 				}
 				cases = append(cases, k)
+			}
+			// owner chains through rotations by size
+			for i := 0; i < c.N(300, 4000); i++ {
+				cap := []int{1, 2, 2, 3, 3, 4, 6}[c.Rand.Intn(7)]
+				cases = append(cases, c06Case{Kind: "cache", Cap: cap, IntervalMs: 3600000, Ops: c06GenOwner(c, cap, false, i)})
 			}
 			// window arithmetic
 			for kind := 0; kind < 2; kind++ {
@@ -570,6 +690,11 @@ func init() {
 				}
 				ops = append(ops, c06Op{Data: core.Hex(x), Tag: "-", At: "gap", Frac: total / float64(parts)})
 				timed = append(timed, c06Case{Kind: "cache", Cap: cap, IntervalMs: 300, Ops: ops})
+			}
+			// owner chains through rotations by time
+			for i := 0; i < c.N(36, 300); i++ {
+				cap := []int{2, 3, 4, 8}[c.Rand.Intn(4)]
+				timed = append(timed, c06Case{Kind: "cache", Cap: cap, IntervalMs: 300, Ops: c06GenOwner(c, cap, true, i)})
 			}
 			var wg sync.WaitGroup
 			var discarded atomic.Int64
